@@ -63,6 +63,7 @@ CiRules == ReleaseRules("ci.release") \cup
   R("ci.leafvariant", "arches", "set_of_int", "reject"), R("ci.leafvariant", "arches", "set_of_none", "reject"),
   R("ci.leafvariant", "arches", "set_of_blank", "reject"),
   R("ci.childvariant", "arches", "foreign", "reject"),
+  R("ci.childvariant", "arches", "foreign_substring", "reject"),     \* an arch whose name is a piece of one of the parent's (x86 of x86_64)
   \* an architecture the TOP-level ancestor has but the direct parent lacks (needs three levels)
   R("ci.grandchild", "arches", "foreign_ancestor", "reject"),
   \* a child UID that differs from <parent UID>-<id> only in dash placement
@@ -122,7 +123,7 @@ TiRules == {
   R("ti.images", "platforms", "arch_unreferenced", "reject"),     \* images under the tree arch itself, arch missing from tree.platforms
   R("ti.childvariant", "uid", "dashvariant", "na"),
   R("ti.stage2", "mainimage", "absolute", "reject"), R("ti.stage2", "mainimage", "int", "na"),
-  R("ti.stage2", "instimage", "absolute", "reject"),
+  R("ti.stage2", "instimage", "absolute", "reject"), R("ti.stage2", "instimage", "absolute_alone", "na"),
   R("ti.media", "discnum", "str", "reject"), R("ti.media", "discnum", "float", "na"),
   R("ti.media", "totaldiscs", "str", "reject"), R("ti.media", "totaldiscs", "float", "na"),
   R("ti.media", "totaldiscs", "onlyone", "na"),
@@ -139,6 +140,9 @@ DiRules == {
   R("di.discinfo", "description", "bytes", "na"), R("di.discinfo", "arch", "bytes", "na"),      \* text fields take text only
   R("di.discinfo", "disc_numbers", "emptylist", "na"), R("di.discinfo", "disc_numbers", "none", "na"),
   R("di.discinfo", "disc_numbers", "str", "reject"), R("di.discinfo", "disc_numbers", "tuple", "na"),
+  \* document-only: a list with an empty item (trailing, leading, doubled comma)
+  R("di.discinfo", "disc_numbers", "doc:trailingcomma", "reject"), R("di.discinfo", "disc_numbers", "doc:leadingcomma", "reject"),
+  R("di.discinfo", "disc_numbers", "doc:doublecomma", "reject"),
   R("di.discinfo", "disc_numbers", "list_of_text", "na"), R("di.discinfo", "disc_numbers", "list_of_float", "na"),
   \* the bad element compares equal to a legal number listed before it (1 == 1.0 == True)
   R("di.discinfo", "disc_numbers", "list_int_float", "na"), R("di.discinfo", "disc_numbers", "list_int_bool", "na") }
